@@ -846,6 +846,31 @@ func tryReplay(w *World, ex *Exec, o *Obligation) {
 	}
 	if !replayable(fn) {
 		o.replayNote = "no concrete replay: " + o.Fn + " takes keeper state, a context or dependencies (outside the replay harness's reach)"
+		// still useful to a reader: the scalar inputs in a model of the query with the quantified axioms dropped.
+		// Unconfirmed - nothing was run; library functions (bech32, keccak, ...) are free in that model.
+		ctr := 0
+		as, goal := propagate(o.Assumes, o.Goal)
+		m := &modelSession{asserts: append(append([]*Term{}, as...), Not(extGoal(goal, true, &ctr))), without: o.Without}
+		var ts []*Term
+		var names []string
+		for _, in := range o.Inputs {
+			if (in.T.Sort == SBool || bvWidth(in.T.Sort) > 0) && len(ts) < 60 {
+				ts = append(ts, in.T)
+				names = append(names, in.Name)
+			}
+		}
+		if vals, ok := m.values(ts); ok {
+			cand := map[string]string{}
+			for i, v := range vals {
+				if ts[i].Sort == SBool {
+					cand[names[i]] = fmt.Sprint(v.Sign() != 0)
+				} else {
+					cand[names[i]] = v.String()
+				}
+			}
+			o.replayData = map[string]interface{}{"unconfirmed_candidate": cand,
+				"note": "values of the scalar inputs in a model of the failed query with its quantified axioms dropped; not run against the code"}
+		}
 		return
 	}
 	c := ex.contracts[fnName(fn)]
